@@ -1482,6 +1482,8 @@ htp_status_t htp_decode_path_inplace(htp_tx_t *tx, bstr *path) {
 
             // Is it a NUL byte?
             if (c == 0) {
+                tx->flags |= HTP_PATH_RAW_NUL;
+
                 if (cfg->decoder_cfgs[HTP_DECODER_URL_PATH].nul_raw_unwanted != HTP_UNWANTED_IGNORE) {
                     tx->response_status_expected_number = cfg->decoder_cfgs[HTP_DECODER_URL_PATH].nul_raw_unwanted;
                 }
